@@ -261,7 +261,7 @@ func c05Script(thread, n int, readsAfter bool) []*c05Op {
 	return ops
 }
 
-//verif:h prop=C05 p.ops0=1/2 p.ops1=1/1 p.flush=1/1 p.prefill=1/2 preempt=2/2 cover=linearized runs=30000000 timeout=300/3000 steps=400000
+//verif:h prop=C05 p.ops0=1/2 p.ops1=1/1 p.flush=1/1 p.prefill=1/2 preempt=2/2 cover=linearized runs=30000000 timeout=300/900 steps=400000
 func H_C05_linearizable() {
 	root := NewMapDB()
 	store := kvstore.KVStore(root)
@@ -312,7 +312,7 @@ func H_C05_linearizable() {
 // H_C05_snapshot: an Iterate (with values) running against a goroutine that performs two writes must report a
 // set of entries that existed together at one instant.
 //
-//verif:h prop=C05 preempt=2/3 cover=snapshot runs=30000000 timeout=300/3000 steps=400000
+//verif:h prop=C05 preempt=2/3 cover=snapshot runs=30000000 timeout=300/900 steps=400000
 func H_C05_snapshot() {
 	root := NewMapDB()
 	store := kvstore.KVStore(root)
